@@ -13,14 +13,65 @@ EXPLANATION = (
     "equalities between computed strings for all inputs.")
 
 
+def ext_source(rep, F, cg):
+    """`trim_ext(p) + '.' + ext(p) == p` and `name(p) is base(p) without that extension`: one notion of extension"""
+    from mir import callee_of
+    R = 'EXT-SOURCE'
+    rep.rule(R, 'ext, trim_ext and name all take their notion of "extension" from the same std primitive: each reaches std::path::Path::extension (or file_stem, its '
+             'complement) through the call graph of sys::fs::path, and none of them splits the name at a dot on its own (split / rsplit / find / rfind on \'.\')')
+    P = 'sys::fs::path::'
+    STD = ('<std::path::Path>::extension', '<std::path::Path>::file_stem')
+    OWN_SPLIT = ('rsplit_once', 'split_once', 'rsplit', 'rsplitn', 'splitn', 'rfind', 'find', 'split', 'rsplit_terminator', 'strip_suffix')
+
+    def reach(fn, seen):
+        """(reaches the std extension primitive, own dot-splitting callees) through sys::fs::path helpers"""
+        if fn in seen or fn not in F.bodies:
+            return False, []
+        seen.add(fn)
+        hit, own = False, []
+        names = [fn] + [n for n in F.bodies if n.startswith(fn + '::{closure')]
+        for n in names:
+            for i, t in cg.body(n).calls():
+                c = t.get('resolved') or callee_of(t) or ''
+                d = callee_of(t) or ''
+                if d in STD or c in STD:
+                    hit = True
+                elif d.startswith('<str>::') and d.split('::')[-1] in OWN_SPLIT:
+                    own.append(d)
+                elif c.startswith(P) or d.startswith(P):
+                    h, o = reach(c if c.startswith(P) else d, seen)
+                    hit = hit or h
+        return hit, own
+    n = 0
+    for f in ('ext', 'trim_ext', 'name'):
+        fn = P + f
+        if fn not in F.bodies:
+            rep.add(R, 'extsource:%s' % f, '%s exists' % fn, False, detail='anchor missing')
+            continue
+        n += 1
+        hit, own = reach(fn, set())
+        ok = hit and not own
+        B = cg.body(fn)
+        rep.add(R, 'extsource:%s' % f, 'sys::%s derives the extension from Path::extension' % f, ok, '%s:%d' % (B.file, B.line),
+                '' if ok else 'sys::%s %s: its idea of the extension can differ from ext() / trim_ext() (dot files, `..`, trailing dots)' %
+                (f, ('splits the name itself with %s' % sorted(set(own))) if own else 'no longer reaches std::path::Path::extension'))
+    rep.floor(R, 'extension helpers', n, 3)
+
+
 def run(rep, F, ctx):
     cg = CallGraph(F)
     panics.unit(rep, F, cg)
     pathrules.root_strip(rep, F, cg)
     pathrules.join_own(rep, F, cg)
+    ext_source(rep, F, cg)
     rep.rule('FWD', 'each PathExt method body is exactly one call of the same-named free function in sys::fs::path with self and its parameters in order, result returned unmodified')
     n = fwd.static_forwarders(rep, F, 'std::path::Path', fwd.PATHEXT_TRAIT, 'sys::fs::path::{name}', False)
     rep.floor('FWD', 'PathExt forwarders', n, 21)
+    import primtable as _pt
+    _pt.prim_table(rep, F, cg, engine.load_table('primitives.json'), _pt.GROUPS['C15'])
+    import siteguard as _sg
+    _t = engine.load_table('site_guards.json')
+    _sg.site_guard(rep, F, cg, _t, _t['_groups']['C15'])
     return engine.finish(
         rep, 'other', EXPLANATION,
         assumptions=['std::path::Path::join replaces the base when the joined operand is absolute (std contract)'],
